@@ -1,2 +1,71 @@
+"""replay handlers for the remaining properties"""
+import numpy as np
+
+
 def run(req):
-    return dict(reproduced=False, detail="no replay handler for %s" % req.get("fn"))
+    fn = req["fn"]
+    a = req.get("args", {})
+    if fn in ("trajgrad.trap_grad", "trajgrad.min_trap_grad"):
+        return _trap(fn, a)
+    if fn == "trajgrad.spokes_grad":
+        return _spokes(a)
+    return dict(reproduced=False, detail="no replay handler for %s" % fn)
+
+
+def _trap(fn, a):
+    from sigpy.mri.rf import trajgrad
+    area, gmax, dgdt, dt = float(a["area"]), float(a["gmax"]), float(a["dgdt"]), float(a["dt"])
+    try:
+        if fn.endswith("min_trap_grad"):
+            trap, ramppts = trajgrad.min_trap_grad(area, gmax, dgdt, dt)
+        else:
+            trap, ramppts = trajgrad.trap_grad(area, gmax, dgdt, dt)
+    except Exception as e:
+        return dict(reproduced=True, detail="real code raised %s: %s for positive area/limits" % (type(e).__name__, e))
+    t = np.asarray(trap, dtype=float).ravel()
+    tol = 1e-9
+    bad = []
+    if not np.all(np.isfinite(t)):
+        bad.append("non-finite samples")
+    if abs(t[0]) > tol * gmax or abs(t[-1]) > tol * gmax:
+        bad.append("does not start/end at zero")
+    if np.max(np.abs(t)) > gmax * (1 + 1e-9):
+        bad.append("amplitude %g > gmax %g" % (np.max(np.abs(t)), gmax))
+    if len(t) > 1 and np.max(np.abs(np.diff(t))) > dgdt * dt * (1 + 1e-9):
+        bad.append("slew step %g > dgdt*dt %g" % (np.max(np.abs(np.diff(t))), dgdt * dt))
+    if fn.endswith("min_trap_grad"):
+        flat = t[ramppts + 1:len(t) - ramppts - 1]
+        if len(flat) < 1 or abs(np.sum(flat) * dt - area) > 1e-9 * area:
+            bad.append("flat-top area %g != %g" % (np.sum(flat) * dt, area))
+    else:
+        if abs(np.sum(t) * dt - area) > 1e-9 * area:
+            bad.append("area %g != %g" % (np.sum(t) * dt, area))
+    return dict(reproduced=bool(bad), detail="; ".join(bad) or "all clauses hold", n=len(t))
+
+
+def _spokes(a):
+    from sigpy.mri.rf import trajgrad
+    k = np.array(a["k"], dtype=float)
+    gmax, dgdt, gts = float(a["gmax"]), float(a["dgdtmax"]), float(a["gts"])
+    g = trajgrad.spokes_grad(k, float(a["tbw"]), float(a["sl_thick"]), gmax, dgdt, gts)
+    bad = []
+    if not np.all(np.isfinite(g)):
+        bad.append("non-finite samples")
+    if np.max(np.abs(g)) > gmax * (1 + 1e-9):
+        bad.append("amplitude %g > gmax" % np.max(np.abs(g)))
+    if np.max(np.abs(np.diff(g, axis=1))) > dgdt * gts * (1 + 1e-9):
+        bad.append("slew step %g > dgdt*dt %g" % (np.max(np.abs(np.diff(g, axis=1))), dgdt * gts))
+    if np.max(np.abs(g[:, 0])) > 1e-12 or np.max(np.abs(g[:, -1])) > 1e-12:
+        bad.append("does not start/end at zero")
+    # k-space increments: after the i-th slice-select lobe the in-plane position moved by k[i+1]-k[i] (k[n] := 0)
+    area = float(a["tbw"]) / (float(a["sl_thick"]) / 10) / 4257
+    sub, _ = trajgrad.min_trap_grad(area, gmax, dgdt, gts)
+    L = np.size(sub)
+    kk = np.vstack([k[:, :2], np.zeros((1, 2))])
+    for i in range(k.shape[0]):
+        for ax in (0, 1):
+            moved = np.sum(g[ax, :(i + 1) * L]) * gts * 4257
+            want = kk[i + 1, ax] - kk[0, ax]
+            if abs(moved - want) > 1e-6 * max(1.0, abs(want)):
+                bad.append("spoke %d axis %d moved %g, requested %g" % (i, ax, moved, want))
+    return dict(reproduced=bool(bad), detail="; ".join(bad[:4]) or "all clauses hold")
